@@ -148,8 +148,9 @@ def gen_doc(rng, kind):
         if rng.random() < 0.1:
             text += b"X-Extra-%d: anything goes\n" % len(text)
     if rng.random() < 0.15:
-        # a field the typed struct does not know, named like a field of one of the nested custom types
-        k = rng.choice([b"Epoch", b"Revision", b"Native", b"Relations", b"ABI", b"OS", b"CPU"])
+        # a field the typed struct does not know, named like a field that lies INSIDE one of its struct-typed fields (asked from
+        # the compiled types by reflection - op tfieldnames - exported or not, at any depth)
+        k = rng.choice(NESTED.get(kind) or [b"Epoch", b"Revision", b"Native", b"Relations", b"ABI", b"OS", b"CPU"])
         if k not in present and (k + b":") not in text:
             text += k + b": " + rng.choice([b"3", b"x y", b"yes"]) + b"\n"
     ondemand = {}
@@ -180,9 +181,21 @@ def check_fields(chk, case, res, exp, what):
             return
 
 
+NESTED = {}
+
+
+def load_nested(chk):
+    kinds = ["dsc", "changes", "source_par", "binary_par", "binary_index", "source_index", "deb_control"]
+    for kind, r in zip(kinds, chk.run_impl([("tfieldnames", [k.encode()]) for k in kinds])):
+        own = {deb.encode() for deb, _, _ in TABLES[kind]} | {go.encode() for _, _, go in TABLES[kind]}
+        NESTED[kind] = [x for x in (bytes.fromhex(h[1:]) for h in r.strip("[] ").split()) if x not in own and x != b"Filename"]
+    chk.extra["nested_field_names"] = {k: [x.decode() for x in v] for k, v in NESTED.items()}
+
+
 def run(chk):
     rng = chk.rng
     n = chk.n(700, 14000)
+    load_nested(chk)
     # single-paragraph kinds
     for kind in ("dsc", "changes", "deb_control"):
         docs = [gen_doc(rng, kind) for _ in range(n)]
